@@ -18,6 +18,23 @@ pub enum Driver {
     /// between two resumes the driver runs another fiber that uses locals, closures, try / catch / finally
     /// and yields from inside a try block; it prints only when it finds its own state disturbed
     Interleaved,
+    /// as Plain, and additionally a yield in the middle of expressions: every call argument, every element
+    /// of a vec / tuple literal and every right operand of an arithmetic or comparison operator `e` becomes
+    /// `(Fiber.yield() || e)` - the fiber is suspended with the operands evaluated so far on its stack, and
+    /// a resume without an argument makes the yield evaluate to nil, so the value is `e`'s
+    InExpressions,
+}
+
+thread_local! {
+    static IN_EXPRESSIONS: std::cell::Cell<bool> = std::cell::Cell::new(false);
+}
+
+fn mid(e: Expr) -> Expr {
+    if IN_EXPRESSIONS.with(|f| f.get()) {
+        Expr::Paren(Box::new(Expr::Or(Box::new(invoke(var("Fiber"), "yield", vec![])), Box::new(e))))
+    } else {
+        e
+    }
 }
 
 fn yield_stmt(with_value: bool) -> Stmt {
@@ -41,6 +58,11 @@ fn map_exprs(es: &[Expr], v: bool) -> Vec<Expr> {
     es.iter().map(|e| map_expr(e, v)).collect()
 }
 
+/// (arguments and elements: also a yield before each one when yields inside expressions are on)
+fn map_operands(es: &[Expr], v: bool) -> Vec<Expr> {
+    es.iter().map(|e| mid(map_expr(e, v))).collect()
+}
+
 /// expressions are copied; block-bodied lambdas inside them get yields
 fn map_expr(e: &Expr, v: bool) -> Expr {
     match e {
@@ -49,18 +71,18 @@ fn map_expr(e: &Expr, v: bool) -> Expr {
         Expr::Assign(id, x) => Expr::Assign(id.clone(), bx(x, v)),
         Expr::CompoundAssign(id, op, x) => Expr::CompoundAssign(id.clone(), *op, bx(x, v)),
         Expr::Unary(op, x) => Expr::Unary(*op, bx(x, v)),
-        Expr::Binary(op, a, b) => Expr::Binary(*op, bx(a, v), bx(b, v)),
+        Expr::Binary(op, a, b) => Expr::Binary(*op, bx(a, v), if matches!(op, BinOp::Range) { bx(b, v) } else { Box::new(mid(map_expr(b, v))) }),
         Expr::And(a, b) => Expr::And(bx(a, v), bx(b, v)),
         Expr::Or(a, b) => Expr::Or(bx(a, v), bx(b, v)),
-        Expr::Call(f, args) => Expr::Call(bx(f, v), map_exprs(args, v)),
-        Expr::Invoke(r, id, args) => Expr::Invoke(bx(r, v), id.clone(), map_exprs(args, v)),
+        Expr::Call(f, args) => Expr::Call(bx(f, v), map_operands(args, v)),
+        Expr::Invoke(r, id, args) => Expr::Invoke(bx(r, v), id.clone(), map_operands(args, v)),
         Expr::Get(r, id) => Expr::Get(bx(r, v), id.clone()),
         Expr::Set(r, id, x) => Expr::Set(bx(r, v), id.clone(), bx(x, v)),
         Expr::CompoundSet(r, id, op, x) => Expr::CompoundSet(bx(r, v), id.clone(), *op, bx(x, v)),
         Expr::Index(a, i) => Expr::Index(bx(a, v), bx(i, v)),
         Expr::SetIndex(a, i, x) => Expr::SetIndex(bx(a, v), bx(i, v), bx(x, v)),
-        Expr::VecLit(es) => Expr::VecLit(map_exprs(es, v)),
-        Expr::TupleLit(es) => Expr::TupleLit(map_exprs(es, v)),
+        Expr::VecLit(es) => Expr::VecLit(map_operands(es, v)),
+        Expr::TupleLit(es) => Expr::TupleLit(map_operands(es, v)),
         Expr::MapLit(kvs) => Expr::MapLit(kvs.iter().map(|(k, x)| (map_expr(k, v), map_expr(x, v))).collect()),
         Expr::Lambda(f) => Expr::Lambda(map_fn(f, v)),
         Expr::SuperInvoke(id, args) => Expr::SuperInvoke(id.clone(), map_exprs(args, v)),
@@ -121,11 +143,13 @@ const OTHER_FIBER: &str = "var zz_other = Fiber.new(|| {\n  var n = 0;\n  var ke
 /// the source the implementation runs: the statements with a yield after every statement, in a fiber
 /// resumed until it has finished
 pub fn yielding_source(body: &[Stmt], driver: Driver) -> String {
-    let with_values = driver != Driver::Plain;
+    let with_values = matches!(driver, Driver::Values | Driver::Interleaved);
+    IN_EXPRESSIONS.with(|f| f.set(driver == Driver::InExpressions));
     let prog = vec![var_stmt("fib", invoke(var("Fiber"), "new", vec![lambda_block(&[], map_block(body, with_values))]))];
+    IN_EXPRESSIONS.with(|f| f.set(false));
     let mut src = print_program(&prog, false);
     match driver {
-        Driver::Plain => src.push_str("while !fib.has_finished() { fib.call(); }\n"),
+        Driver::Plain | Driver::InExpressions => src.push_str("while !fib.has_finished() { fib.call(); }\n"),
         Driver::Values => src.push_str("fib.call();\nvar zz_k = 0;\nwhile !fib.has_finished() { zz_k += 1; if zz_k % 2 == 0 { fib.call(); } else { fib.call([zz_k, \"resume\"]); } }\n"),
         Driver::Interleaved => {
             src.push_str(OTHER_FIBER);
